@@ -143,7 +143,68 @@ func TestGvcReplay(t *testing.T) {
 `}},
 }
 
+const gvcCLIHeader = `package task_test
+
+import (
+	"context"
+	"os"
+	"os/exec"
+	"path/filepath"
+	"strings"
+	"testing"
+	"time"
+)
+
+// gvcCLI builds the real task binary once and runs it in dir with a hard timeout (the binary swallows SIGTERM).
+func gvcCLI(t *testing.T, dir string, args ...string) string {
+	t.Helper()
+	bin := filepath.Join(t.TempDir(), "task")
+	b := exec.Command("go", "build", "-o", bin, "./cmd/task")
+	b.Env = append(os.Environ(), "GOFLAGS=-mod=mod", "GOPROXY=off")
+	if out, err := b.CombinedOutput(); err != nil {
+		t.Fatalf("build: %v\n%s", err, out)
+	}
+	ctx, cancel := context.WithTimeout(context.Background(), 30*time.Second)
+	defer cancel()
+	c := exec.CommandContext(ctx, bin, args...)
+	c.Dir = dir
+	c.Stdin = strings.NewReader("")
+	out, _ := c.CombinedOutput()
+	return string(out)
+}
+`
+
 func init() {
+	clauseScenarios = append(clauseScenarios,
+		clauseScenario{"task.run", "posArgs[0]", scenario{pkgRel: "", what: "task --init <path> ignores the path argument",
+			src: gvcCLIHeader + `
+func TestGvcReplay(t *testing.T) {
+	dir := t.TempDir()
+	out := gvcCLI(t, dir, "--init", "custom.yml")
+	if _, err := os.Stat(filepath.Join(dir, "custom.yml")); err != nil {
+		entries, _ := os.ReadDir(dir)
+		var names []string
+		for _, e := range entries {
+			names = append(names, e.Name())
+		}
+		t.Fatalf("GVC-REPLAY-REPRODUCED: 'task --init custom.yml' did not create custom.yml (directory now holds %v; output %q)", names, out)
+	}
+}
+`}},
+		clauseScenario{"task.run", "CLI_ARGS", scenario{pkgRel: "", what: "arguments after -- do not reach {{.CLI_ARGS}} as the same words",
+			src: gvcCLIHeader + `
+func TestGvcReplay(t *testing.T) {
+	dir := t.TempDir()
+	tf := "version: '3'\nsilent: true\ntasks:\n  show:\n    cmds:\n      - printf '<%s>' {{.CLI_ARGS}}\n"
+	if err := os.WriteFile(filepath.Join(dir, "Taskfile.yml"), []byte(tf), 0o644); err != nil {
+		t.Fatal(err)
+	}
+	out := gvcCLI(t, dir, "show", "--", "a", "b c")
+	if out != "<a><b c>" {
+		t.Fatalf("GVC-REPLAY-REPRODUCED: task show -- a 'b c' passed %q to the command, want \"<a><b c>\"", out)
+	}
+}
+`}})
 	clauseScenarios = append(clauseScenarios, clauseScenario{"fingerprint.(*TimestampChecker).OnError", "stampPath", scenario{pkgRel: "", what: "method timestamp: a failed run leaves the stamp file, the next run reports the task up to date",
 		src: gvcHeader + `
 func TestGvcReplay(t *testing.T) {
